@@ -294,10 +294,10 @@ def make_trch(mode):
 
 def _exp_inst(tier):
     out = [{"qs": [2], "mode": 0, "grace": True}, {"qs": [3], "mode": 5, "min_ppq": 10, "grace": True}, {"qs": [2, 3], "mode": 2, "pin_second": True},
-           {"qs": [2], "mode": 4, "pickup": True}, {"qs": [2], "mode": 0, "anacrusis": "time_sig_change"}]
+           {"qs": [2], "mode": 4, "pickup": True, "anacrusis": "pad_bar"}, {"qs": [2], "mode": 0, "anacrusis": "time_sig_change"}]
     if tier != "quick":
         out += [{"qs": [2, 3], "mode": 0, "pin_second": True}, {"qs": [4, 6], "mode": 2, "pin_second": True}, {"qs": [2, 3], "mode": 0}, {"qs": [4, 6], "mode": 2}, {"qs": [2, 3], "mode": 3}, {"qs": [12, 8], "mode": 5}, {"qs": [1], "mode": 1},
-                {"qs": [2], "mode": 0, "pickup": True, "anacrusis": "pad_bar"},
+                {"qs": [2], "mode": 0, "pickup": True, "anacrusis": "pad_bar"}, {"qs": [2], "mode": 4, "pickup": True},
                 {"qs": [3], "mode": 3, "pickup": True, "anacrusis": "time_sig_change"},
                 {"qs": [4, 6], "mode": 4, "min_ppq": 100}]
     return out
